@@ -59,12 +59,18 @@ def success_walk(fn, entry, limit=400, variant=None):
     return out
 
 
-def origin_call(fn, op, depth=30):
+def origin_call(fn, op, depth=30, tuple_idx=None):
     """block of the operand-consuming call an operand's value comes from"""
     p = op_place(op)
+    # tuple_idx: which element of a tuple the traced value is (`let (a, b) = helper()?`)
     while p is not None and depth > 0:
         depth -= 1
         l = p["l"]
+        fs_ = [e_["f"] for e_ in p.get("pr", []) if isinstance(e_, dict) and "f" in e_]
+        if any(isinstance(e_, dict) and "dc" in e_ for e_ in p.get("pr", [])):
+            fs_ = fs_[1:]          # the first field behind a downcast is the variant's payload
+        if fs_ and tuple_idx is None and ("(" in fn.local_ty(l)):
+            tuple_idx = fs_[-1]
         sd = fn.single_def(l)
         if sd is None:
             # the result place of an inlined helper: `Ok(value)` on its success path, the re-raised residual on the others
@@ -85,7 +91,7 @@ def origin_call(fn, op, depth=30):
                 for a in node["args"]:
                     q = op_place(a)
                     if q is not None:
-                        r = origin_call(fn, a, depth)
+                        r = origin_call(fn, a, depth, tuple_idx)
                         if r is not None:
                             return r
                 return nxt
@@ -97,6 +103,9 @@ def origin_call(fn, op, depth=30):
             p = r["p"]
         elif r["k"] == "agg" and r.get("variant") in ("Ok", "Some") and len(r.get("ops", [])) == 1:
             p = op_place(r["ops"][0])          # Ok(value) handed back by an inlined helper
+        elif r["k"] == "agg" and r.get("ak") == "tuple" and tuple_idx is not None and tuple_idx < len(r.get("ops", [])):
+            p = op_place(r["ops"][tuple_idx])          # the element of the pair the helper packed
+            tuple_idx = None
         else:
             return None
     return None
@@ -398,9 +407,12 @@ def run(ctx):
         if t["k"] == "switch" and t.get("ty") == "char" and len(t["targets"]) >= 4:
             for v, tb in t["targets"]:
                 pushes = [tt for bb in success_walk(ue, tb)[:3] for tt in [ue.term(bb)] if tt["k"] == "call" and (callee_of(tt) or "").endswith("String::push")]
-                if pushes:
+                if pushes and const_int(pushes[0]["args"][1]) is not None:
                     esc[chr(v)] = chr(const_int(pushes[0]["args"][1]))
-    if not esc:
+                elif pushes:
+                    esc[chr(v)] = None          # the pushed value is computed: read the table by evaluation below
+    if not esc or None in esc.values():
+        esc = {}
         # the table sits behind a helper / an Option (`match escape_value(c) { Some(v) => push(v), None => .. }`): for each character
         # the match names, the paths below its arm are unfolded down to the first push and the pushed value is evaluated with the
         # matched character bound
